@@ -156,6 +156,8 @@ def fresh_value(st: St, ty, name: str) -> Tuple[SV, St]:
             st = st.fact(c)
         return SPrim(ty, t), st
     k = ty[0]
+    if k in ("tup", "dictv"):           # immutable compound values: a fresh constant of the value sort
+        return S.wrap(ty, S.fresh(name, S.sort_of(ty))), st
     if k == "seq":
         es = S.sort_of(ty[1])
         n = S.fresh(name + ".len", z3.IntSort())
